@@ -9,6 +9,8 @@ From Verif.Topics Require Import Predefined.
 From Verif.Codec Require Import Packets Decode Encode RefParse.
 From Verif.Checkers Require Import ChkCodec ChkGw ChkGw2.
 From Verif.Gateway Require Import GwTypes GwStep.
+From Verif.Match Require Import Match.
+From Verif.Client Require Import ClTypes ClStep.
 
 Definition nmap_empty : topic_map := ∅.
 Definition nmap_insert (i : N) (n : bytes) (m : topic_map) : topic_map := <[i := n]> m.
@@ -20,4 +22,5 @@ Extraction "model.ml"
   read_packet read_dgram pack ref_parse ref_split wf_pkt pkt_eqb chk_C21 chk_C22 chk_short
   encode_short decode_short is_short_topic
   init_state gw_step gw_run chk_C14 chk_C01 chk_C23 chk_C24 obs_of_outs mqtt_valid
-  chk_C03 chk_C04 chk_C07 chk_C08 chk_C09 chk_C11.
+  chk_C03 chk_C04 chk_C07 chk_C08 chk_C09 chk_C11
+  cl_init cl_step cl_run handle_set match_route split join.
